@@ -36,7 +36,7 @@ fn check(prop: &str, tier: Tier) {
         "C13" => {
             let run = Run::new("C13", tier, "fault_enumeration");
             let cov = vh::c13::check(&run);
-            run.finish(cov, &["corpus of 5 plans x 3 compression modes + XML + 3 attribute blobs; inputs are < 8 KiB so any single allocation above max(16 MiB, 4096 x input) counts as unrelated to the input size", "cases run in forked workers under RLIMIT_AS = 3 GiB; an abort or a 20 s stall is attributed to the case being executed and reported, never swallowed", "byte-level mutation alphabets as listed in coverage.rule; 'random' inputs are not used"]);
+            run.finish(cov, &["corpus of 6 plans x 3 compression modes + XML + 3 attribute blobs; inputs are < 8 KiB so any single allocation above max(16 MiB, 4096 x input) counts as unrelated to the input size", "cases run in forked workers under RLIMIT_AS = 3 GiB; an abort or a 20 s stall is attributed to the case being executed and reported, never swallowed", "byte-level mutation alphabets as listed in coverage.rule; 'random' inputs are not used"]);
         }
         "C07" => {
             let run = Run::new("C07", tier, "model_checking");
